@@ -295,13 +295,16 @@ func verifHashAgree(a, b Object) bool {
 	return ok1 && ok2 && (Equals(a, b) == (ha.HashKey() == hb.HashKey()))
 }
 
+// (also C16: a set is keyed by HashKey, so add / remove / membership / union / intersection agree with the reference
+// model - which knows values by == - exactly when two values have equal hash keys iff they are equal. Seed C16l keyed
+// floats by their bit pattern: 0.0 and -0.0 are equal and became two members.)
 //@ func verifHashAgree
-//@ props C15
+//@ props C15 C16
 //@ mode bv
 //@ dispatch *Int *Float *Byte *String *Bool *NilType
 //@ expand Equals
 //@ requires scalar(a) && scalar(b) && typeof(a) == typeof(b)
-//@ ensures[C15.hash.agree] result
+//@ ensures[C15,C16.hash.agree] result
 
 // ---- maps: every operation against the finite-map model (dom, val), whole-map postconditions -----------------
 
